@@ -13,6 +13,8 @@ import numpy as np
 import pandas as pd
 
 ID = "C08"
+# computational entry points whose results are watched by the engine's retained-result oracle (mc/explore.py)
+RETAIN = [('hydrodiy.data.dutils', 'aggregate'), ('hydrodiy.data.dutils', 'flathomogen'), ('hydrodiy.data.dutils', 'monthly2daily'), ('hydrodiy.data.signatures', 'goue')]
 RULE = ("every (composition of n into runs) x label scheme x value vector over "
         "{-2.5,-1,0,1.5,4,NaN} x operator 0..3 x maxnan {0,1,2,n+1}, on the real "
         "dutils.aggregate/flathomogen/goue, against a Fraction reduction per run; "
